@@ -227,13 +227,11 @@ Fixpoint compile_all (greedy : bool) (pats : list bytes) : cres (list (list (rit
     end
   end.
 
-(** several patterns: a malformed member may be "repaired" by the text of its neighbours once
-    joined with "|", which the model does not follow *)
+(** several patterns: a malformed member makes the whole call fail (compile reports a pattern that
+    ends inside an escape or a bracket expression at once; every other malformed member stays
+    malformed in the joined text) *)
 Definition compile_model (pats : list bytes) (mode : N) : cres (list (list (ritem * bytes))) :=
-  match compile_all (m_greedy mode) pats with
-  | CErr => match pats with [_] => CErr | _ => CUnmodelled end
-  | r => r
-  end.
+  compile_all (m_greedy mode) pats.
 
 Fixpoint join_bar (l : list bytes) : bytes :=
   match l with
